@@ -501,7 +501,8 @@ impl Explorer {
                     }
                     Op::Write { pieces, .. } => {
                         let before = model_before.clone().unwrap_or_default();
-                        match prefix_state(&before, ItemKind::Str, pieces, pool.slots[t].as_ref().map(|s| s.as_bytes()))
+                        // pieces are written whole (write!/write_str) or char by char (write_char)
+                        match prefix_state(&before, ItemKind::Char, pieces, pool.slots[t].as_ref().map(|s| s.as_bytes()))
                         {
                             Some(s) => pool.model[t] = Some(s),
                             None => pool.model[t] = Some(before),
@@ -720,11 +721,17 @@ impl Explorer {
         let changed = snaps[t].present != pool.slots[t].is_some()
             || model_before != pool.model[t]
             || kind_after != Some(snaps[t].kind);
-        if changed {
+        let want = |p: usize| self.decides.is_empty() || self.decides.contains(&p);
+        let (w1, w3, w20) = (want(1), want(3), want(20));
+        if changed && w1 {
             self.cov.hit(1, sig, || format!("{} on {:?}/{:?} -> {}", op.show(), snaps[t].kind, share, real_out.class()));
         }
-        self.cov.hit(3, sig ^ 3, || format!("{} [{} requests]", op.show(), log.len()));
-        self.cov.hit(20, sig ^ 20, || format!("{} -> {:?}", op.show(), kind_after));
+        if w3 {
+            self.cov.hit(3, sig ^ 3, || format!("{} [{} requests]", op.show(), log.len()));
+        }
+        if w20 {
+            self.cov.hit(20, sig ^ 20, || format!("{} -> {:?}", op.show(), kind_after));
+        }
         if log.iter().any(|q| q.kind != ReqKind::Dealloc) || !log.is_empty() {
             self.cov.count("steps_with_allocator_requests", 1);
         }
